@@ -111,6 +111,7 @@ def run(rep, tier, seed):
                           {"what": bad, "type": t, "strict_coercion": sc, "datum": v,
                            "DISABLE": outs[0], "FIRST": outs[1], "ALL": outs[2]})
     n_dump = dump_modes_oracle(rep, r, tier)
+    n_model = model_load_modes_oracle(rep, r, tier)
     header = lg.SHOW_HEADER + ("Definition run (c : nat * bool * ty * pv) : string := "
                                "match c with (m, sc, t, v) => show_res (load BOOM (md_of m) sc t v) end.\n")
     ce = CoqEval(PID, header, "run", shard=500)
@@ -128,13 +129,15 @@ def run(rep, tier, seed):
                       {"type": t, "strict_coercion": sc, "datum": v, "mode": MODES[idx % 3],
                        "library": expected[idx], "model": got})
     rep.cov.update({
-        "evaluations": len(coq_cases),
+        "evaluations": len(coq_cases) + n_dump + n_model,
         "distinct_nontrivial": len({repr(c) for c in cases if c[0][0] not in ("TInt", "TStr", "TBool", "TNone", "TAny", "TFloat")}),
         "rule": "types of depth <= 3 over int/float/bool/str/None/Any/Literal, list/set/frozenset/tuple[...]/abstract "
                 "collections (random spellings), fixed tuples, dict/Mapping, Optional, Union; 8 data per type generated from "
                 "the type with 18% junk from a look-alike pool (bools/ints/floats/str/bytes, wrong containers, one-shot "
                 "iterators, foreign objects, 10**400); each case under 3 debug modes, strict or lax per type; non-trivial = "
-                "compound type; distinct by structure",
+                "compound type; distinct by structure; plus model dumpers (TypedDict / dataclass scenarios) and model loaders (3 "
+                "dataclasses with optional-first / nested / listed fields x 5 name_mapping layouts x mutated inputs: absent, None, "
+                "ill-typed, unknown keys) compared across the three modes by a direct oracle",
         "samples": [{"type": cases[i][0], "strict": cases[i][1], "datum": cases[i][2],
                      "library": expected[3 * i:3 * i + 3]} for i in (0, 1)],
         "distribution": {"ok": sum(e.startswith("OK") for e in expected), "load_error": sum(e.startswith("ER") for e in expected),
@@ -208,6 +211,153 @@ def dump_modes_oracle(rep, r, tier):
     return n
 
 
+def _exc_leaves(e):
+    subs = getattr(e, "exceptions", None)
+    if subs:
+        out = []
+        for x in subs:
+            out += _exc_leaves(x)
+        return out
+    extra = ""
+    for attr in ("fields", "bad_type", "expected_type"):
+        if hasattr(e, attr):
+            extra += f"|{attr}={getattr(e, attr)!r}"
+    return [(type(e).__name__, repr(getattr(e, "input_value", "<none>")) + extra)]
+
+
+def model_load_modes_oracle(rep, r, tier):
+    """loading models: acceptance and result must not depend on debug_trail; the DISABLE / FIRST error is one of ALL's.
+    Optional fields first / last, explicit None, absent keys, ill-typed values, unknown keys, nested and listed models,
+    under several name_mapping layouts."""
+    import copy
+    from dataclasses import dataclass, field
+    from typing import Any, Dict, List, Optional
+
+    from adaptix import DebugTrail, ExtraForbid, ExtraSkip, Retort, name_mapping
+    from adaptix.load_error import LoadError
+
+    @dataclass
+    class OptFirst:
+        timeout: Optional[int] = 30
+        retries: int = 3
+        name: str = "n"
+
+    @dataclass
+    class ReqThenOpt:
+        ident: int
+        level: Optional[int] = 5
+        tags: List[int] = field(default_factory=list)
+        rest: Dict[str, Any] = field(default_factory=dict)
+
+    @dataclass
+    class Nest:
+        head: OptFirst
+        items: List[ReqThenOpt] = field(default_factory=list)
+        opt: Optional[ReqThenOpt] = None
+
+    perfect = {
+        OptFirst: {"timeout": 1, "retries": 2, "name": "x"},
+        ReqThenOpt: {"ident": 1, "level": 2, "tags": [1, 2], "rest": {}},
+        Nest: {"head": {"timeout": 1, "retries": 2, "name": "x"}, "items": [{"ident": 1, "level": 2, "tags": [3]}, {"ident": 4}],
+               "opt": {"ident": 9}},
+    }
+    recipes = [
+        ("default", []),
+        ("forbid", [name_mapping(OptFirst, extra_in=ExtraForbid()), name_mapping(ReqThenOpt, extra_in=ExtraForbid())]),
+        ("skip", [name_mapping(OptFirst, extra_in=ExtraSkip())]),
+        ("collect", [name_mapping(ReqThenOpt, extra_in="rest")]),
+        ("nested-map", [name_mapping(OptFirst, map={"timeout": ("cfg", "t"), "retries": ("cfg", "r")}),
+                        name_mapping(ReqThenOpt, map={"level": ("m", "lvl")})]),
+    ]
+    junk = [None, "s", 1.5, [], {}, [None], {"k": None}, True, 0]
+
+    def paths(d, prefix=()):
+        out = []
+        if isinstance(d, dict):
+            for k, v in d.items():
+                out.append(prefix + (k,))
+                out += paths(v, prefix + (k,))
+        elif isinstance(d, list):
+            for i, v in enumerate(d):
+                out.append(prefix + (i,))
+                out += paths(v, prefix + (i,))
+        return out
+
+    def mutate(d):
+        d = copy.deepcopy(d)
+        for _ in range(r.choice([1, 1, 2, 3])):
+            ps = paths(d)
+            if not ps:
+                break
+            p = r.choice(ps)
+            node = d
+            for k in p[:-1]:
+                node = node[k]
+            c = r.random()
+            if c < 0.35:
+                node[p[-1]] = None if r.random() < 0.5 else copy.deepcopy(r.choice(junk))
+            elif c < 0.6:
+                del node[p[-1]]
+            elif isinstance(node, dict):
+                node[r.choice(["unk", "zz", "timeout_", "t"])] = copy.deepcopy(r.choice(junk))
+            else:
+                node.append(copy.deepcopy(r.choice(junk)))
+        return d
+
+    n = 0
+    reported = set()
+    n_mut = 60 if tier == "quick" else 600
+    for cname, recipe in recipes:
+        for sc in (True, False):
+            rts = [Retort(recipe=recipe, strict_coercion=sc, debug_trail=getattr(DebugTrail, m)) for m in MODES]
+            for cls, good in perfect.items():
+                data = [good, {}] + [mutate(good) for _ in range(n_mut)]
+                if cname == "nested-map":
+                    def relocate(x):
+                        x = copy.deepcopy(x)
+                        if isinstance(x, dict) and ("timeout" in x or "retries" in x) and "name" in x:
+                            cfg = {}
+                            if "timeout" in x:
+                                cfg["t"] = x.pop("timeout")
+                            if "retries" in x:
+                                cfg["r"] = x.pop("retries")
+                            x["cfg"] = cfg
+                        return x
+                    data += [relocate(x) for x in data[:20]] + [{"cfg": None}, {"cfg": {"t": None}}, {"cfg": {"t": None, "r": 1}, "name": "q"}]
+                for d in data:
+                    outs = []
+                    for rt in rts:
+                        n += 1
+                        try:
+                            outs.append(("ok", rt.load(copy.deepcopy(d), cls)))
+                        except LoadError as e:
+                            outs.append(("le", e))
+                        except Exception as e:  # noqa: BLE001
+                            outs.append(("x", e))
+                    kinds = [o[0] for o in outs]
+                    bad = None
+                    if "x" in kinds:
+                        continue       # C04's subject
+                    if len(set(kinds)) != 1:
+                        bad = "modes disagree on acceptance"
+                    elif kinds[0] == "ok" and not (outs[0][1] == outs[1][1] == outs[2][1]):
+                        bad = "modes return different values"
+                    elif kinds[0] == "le":
+                        allv = set(_exc_leaves(outs[2][1]))
+                        for mi in (0, 1):
+                            for leaf in _exc_leaves(outs[mi][1]):
+                                if leaf[0] == "LoadError":
+                                    continue
+                                if leaf not in allv:
+                                    bad = f"error raised under {MODES[mi]} is not among the errors collected under ALL"
+                    if bad and (cname, cls.__name__, bad) not in reported:
+                        reported.add((cname, cls.__name__, bad))
+                        rep.violation(f"model-modes:{bad}:{cname}:{cls.__name__}", "property-violated",
+                                      {"what": f"loading a model: {bad}", "model": cls.__name__, "name_mapping": cname, "strict_coercion": sc,
+                                       "datum": repr(d), "DISABLE": repr(outs[0])[:300], "FIRST": repr(outs[1])[:300], "ALL": repr(outs[2])[:300]})
+    return n
+
+
 def detuple(x):
     if isinstance(x, list):
         if x and isinstance(x[0], str) and x[0][:1] in ("T", "V", "L", "K") and x[0][1:2].isalpha():
@@ -217,6 +367,11 @@ def detuple(x):
 
 
 def replay(rep, body):
+    if body.get("signature", "").startswith(("model-modes:", "dump-modes:")):
+        import sys
+        print("recorded:", body.get("what"), body.get("datum"))
+        lib.replay_by_rerun(sys.modules[__name__], rep, body)
+        return
     if "type" not in body:
         print("replay names a broken obligation, not an input:", body.get("what"))
         rep.violation(body["signature"], body["kind"], body, no_input=True)
